@@ -43,6 +43,11 @@ CHECKS["C17"] = {
     "note": COMMON_NOTE + "heapq is modelled as 'pop returns the minimum of a strict total order'; scores are naturals; elements are indices.",
     "technique": "Lean 4 proof (pending-subtree invariant, key lower bound) + model/code correspondence check",
 }
+CHECKS["C19"] = {
+    "text": "Lean: int_2_roman equals an independently written canonical numeral and roman_2_int inverts it on the whole domain 1..3999 (kernel evaluation through a balanced range checker with a soundness lemma, no native_decide); arg_sort is a permutation of the indices with non-decreasing (reverse: non-increasing) keys and equal keys in index order in both directions; sub_seq is List infix, search_sub_seq lists exactly the occurrences in ascending order and raises ValueError on empty input; compare_pos_in_iterables is List.Perm; Batcher/BatcherIter cut into consecutive batches whose concatenation is the input, all of size batch_size but a shorter non-empty last one, len = integer ceiling, IndexError at and beyond len; range objects batched by arithmetic on their bounds.",
+    "note": COMMON_NOTE + "sorted() modelled as List.mergeSort (stable), slicing as drop/take; tuple inputs are checked to batch in lock-step by the harness (they reuse the same slicing per member).",
+    "technique": "Lean 4 proof (whole-domain decide +kernel, stability of mergeSort, list lemmas) + model/code correspondence check",
+}
 NOT_APPLICABLE = []
 NOTES = ("Checks are added as their models, theorems and correspondence harnesses are completed; properties not yet listed are "
          "work in progress (see DESIGN.md), not 'not applicable'.")
